@@ -828,3 +828,161 @@ mod tests {
         tower::ServiceExt::boxed_clone(tower::service_fn(handle))
     }
 }
+
+/// Direct drive of the active-peer set, the tie-break and the dial backoff, for the external
+/// verification harness.
+#[cfg(bmwill_anemo_verif)]
+pub mod verif_hooks {
+    use super::*;
+
+    /// An `ActivePeers` set the harness can feed with real quinn connections.
+    #[derive(Clone, Debug)]
+    pub struct ActivePeersDriver {
+        own_peer_id: PeerId,
+        active_peers: ActivePeers,
+    }
+
+    impl ActivePeersDriver {
+        pub fn new(own_peer_id: PeerId, channel_size: usize) -> Self {
+            Self {
+                own_peer_id,
+                active_peers: ActivePeers::new(channel_size),
+            }
+        }
+
+        /// Wraps `connection` like the endpoint does and adds it like the connection manager
+        /// does. Returns `(remote peer id, stable id, kept)`.
+        pub fn add(
+            &self,
+            connection: quinn::Connection,
+            origin: ConnectionOrigin,
+        ) -> Result<(PeerId, usize, bool)> {
+            let connection = Connection::new(connection, origin)?;
+            let peer_id = connection.peer_id();
+            let stable_id = connection.stable_id();
+            let kept = self
+                .active_peers
+                .add(&self.own_peer_id, connection)
+                .is_some();
+            Ok((peer_id, stable_id, kept))
+        }
+
+        pub fn remove(&self, peer_id: &PeerId, reason: DisconnectReason) {
+            self.active_peers.remove(peer_id, reason)
+        }
+
+        pub fn remove_with_stable_id(
+            &self,
+            peer_id: PeerId,
+            stable_id: usize,
+            reason: DisconnectReason,
+        ) {
+            self.active_peers
+                .remove_with_stable_id(peer_id, stable_id, reason)
+        }
+
+        pub fn peers(&self) -> Vec<PeerId> {
+            self.active_peers.peers()
+        }
+
+        pub fn len(&self) -> usize {
+            self.active_peers.len()
+        }
+
+        pub fn is_empty(&self) -> bool {
+            self.len() == 0
+        }
+
+        pub fn subscribe(&self) -> (broadcast::Receiver<PeerEvent>, Vec<PeerId>) {
+            self.active_peers.subscribe()
+        }
+
+        /// `(stable id, origin)` of the connection currently registered for `peer_id`.
+        pub fn get(&self, peer_id: &PeerId) -> Option<(usize, ConnectionOrigin)> {
+            self.active_peers
+                .get(peer_id)
+                .map(|connection| (connection.stable_id(), connection.origin()))
+        }
+    }
+
+    /// `true` if the existing connection should be dropped in favour of the new one.
+    pub fn tie_break(
+        own_peer_id: &PeerId,
+        remote_peer_id: &PeerId,
+        existing_origin: ConnectionOrigin,
+        new_origin: ConnectionOrigin,
+    ) -> bool {
+        ActivePeersInner::simultaneous_dial_tie_breaking(
+            own_peer_id,
+            remote_peer_id,
+            existing_origin,
+            new_origin,
+        )
+    }
+
+    /// The backoff bookkeeping kept per peer by the connectivity check.
+    #[derive(Debug)]
+    pub struct BackoffDriver(DialBackoffState);
+
+    impl BackoffDriver {
+        pub fn new(
+            now: std::time::Instant,
+            backoff_step: std::time::Duration,
+            max_backoff: std::time::Duration,
+        ) -> Self {
+            Self(DialBackoffState::new(now, backoff_step, max_backoff))
+        }
+
+        pub fn update(
+            &mut self,
+            now: std::time::Instant,
+            backoff_step: std::time::Duration,
+            max_backoff: std::time::Duration,
+        ) {
+            self.0.update(now, backoff_step, max_backoff)
+        }
+
+        pub fn backoff(&self) -> std::time::Instant {
+            self.0.backoff
+        }
+
+        pub fn attempts(&self) -> usize {
+            self.0.attempts
+        }
+    }
+
+    /// The quinn configurations a `Network` with this key and these names would use.
+    pub struct QuinnConfigs {
+        pub peer_id: PeerId,
+        pub endpoint: quinn::EndpointConfig,
+        pub server: quinn::ServerConfig,
+        pub client: quinn::ClientConfig,
+        pub server_name: String,
+    }
+
+    pub fn quinn_configs(
+        config: &Config,
+        private_key: [u8; 32],
+        server_name: &str,
+        alternate_server_name: Option<&str>,
+        expected_server_identity: Option<PeerId>,
+    ) -> Result<QuinnConfigs> {
+        let endpoint_config = crate::config::EndpointConfig::builder()
+            .transport_config(config.transport_config())
+            .server_name(server_name)
+            .alternate_server_name(alternate_server_name)
+            .private_key(private_key)
+            .build()?;
+        let client = match expected_server_identity {
+            Some(peer_id) => endpoint_config.client_config_with_expected_server_identity(peer_id),
+            None => endpoint_config.client_config().clone(),
+        };
+        Ok(QuinnConfigs {
+            peer_id: endpoint_config.peer_id(),
+            endpoint: endpoint_config.quinn_endpoint_config(),
+            server: endpoint_config.server_config().clone(),
+            client,
+            server_name: endpoint_config.server_name().to_owned(),
+        })
+    }
+}
